@@ -170,4 +170,42 @@ theorem zernike_basis_independent_instance_2d :
     blockOf 4 3 ex2Basis = !![1, 0, 1; 0, -1, 1; -1/2, 0, -1/2; 0, 0, -1] ∧ IsUnit ((blockOf 4 3 ex2Basis)ᵀ * blockOf 4 3 ex2Basis).det :=
   ⟨ex2Basis_entries, ex2Basis_independent⟩
 
+/-- **the two contractions of the code are the REGENERATED `Gen.fitContract` / `Gen.removeContract`** (translated from the einsum subscript
+strings `'ij,i->j'` and `'ijk,i->jk'`): each sums its first index against the vector; the executable model's `B·c` IS the generated
+contraction of `zernike_remove`. Changing a subscript string changes these definitions (or their argument order) and breaks this theorem and
+the model built on it. -/
+theorem einsum_contractions {F : Type} [Field F] (n : ℕ) (a : ℕ → ℕ → F) (b : ℕ → F) (s : ℕ) :
+    Gen.fitContract sumRange n a b s = ∑ i ∈ Finset.range n, a i s * b i ∧
+    Gen.removeContract sumRange n a b s = ∑ i ∈ Finset.range n, a i s * b i ∧
+    composeX n (fun s i => a i s) b s = Gen.removeContract sumRange n a b s := by
+  refine ⟨?_, ?_, rfl⟩ <;> simp only [Gen.fitContract, Gen.removeContract, sumRange_eq_sum]
+
+/-- **`einsum('ij,i->j', pinv(basis), opd.ravel())` is `(BᵀB)⁻¹Bᵀ·opd`**: the generated contraction applied to the entries of the transposed
+pseudo-inverse (`pinv(basis)` is samples × modes) is the abstract fit of the theorems above -/
+theorem fit_einsum_is_pinv_apply {F : Type} [Field F] (p k : ℕ) (B : Matrix (Fin p) (Fin k) F) (opd : Fin p → F) (j : Fin k) :
+    Gen.fitContract (fun n f => ∑ i ∈ Finset.range n, f i) p
+        (fun i (j : Fin k) => if h : i < p then (Matrix.transpose (pinvFR B)) ⟨i, h⟩ j else 0) (fun i => if h : i < p then opd ⟨i, h⟩ else 0) j
+      = zfit B opd j := by
+  unfold Gen.fitContract zfit
+  beta_reduce
+  rw [Finset.sum_range]
+  simp only [Fin.is_lt, dite_true, Matrix.transpose_apply, Matrix.mulVec, dotProduct, Fin.eta]
+
+/-- **the OPD and the basis number their samples alike**: pixel (r, c) of an `nr × nc` array is sample `r·nc + c` both in `opd.ravel()`
+(`Gen.ravelIndex`, regenerated from the call and its `order`) and in `basis.reshape(k, -1)` (`Gen.reshapeIndex`) — C order on both sides, so the
+fit pairs every OPD sample with the basis values of the same pixel; distinct pixels get distinct numbers below `nr·nc` -/
+theorem sample_numbering_agrees (nr nc r c : ℕ) :
+    opdSample nr nc r c = basisSample nr nc r c ∧ opdSample nr nc r c = r * nc + c ∧
+    (r < nr → c < nc → opdSample nr nc r c < nr * nc ∧ opdSample nr nc r c / nc = r ∧ opdSample nr nc r c % nc = c) := by
+  refine ⟨rfl, rfl, ?_⟩
+  intro hr hc
+  have e : opdSample nr nc r c = r * nc + c := rfl
+  rw [e]
+  refine ⟨?_, ?_, ?_⟩
+  · calc r * nc + c < r * nc + nc := by omega
+      _ = (r + 1) * nc := by ring
+      _ ≤ nr * nc := Nat.mul_le_mul_right _ (by omega)
+  · rw [Nat.mul_comm, Nat.mul_add_div (by omega), Nat.div_eq_of_lt hc]; rfl
+  · rw [Nat.mul_comm, Nat.mul_add_mod, Nat.mod_eq_of_lt hc]
+
 end Lentil.C12
